@@ -47,6 +47,7 @@ type Request struct {
 	// NoCounters: call Go without WithCounters, the way uci.Driver does; the
 	// node count is then read from the info lines and from the poll observer.
 	NoCounters bool `json:"no_counters,omitempty"`
+	PollCap    int  `json:"poll_cap,omitempty"` // overrides the harness safety cap on polls for deliberately long searches
 }
 
 // SearchResult is everything observable about one finished search.
@@ -286,6 +287,12 @@ func runGo(s *search.Search, b *board.Board, req Request, sched Sched, co *coop,
 	a := &agent{req: req, sched: sched, coop: co, stop: make(chan struct{}), pollCap: pollCap, onPoll: extra}
 	if req.Nodes > pollCap/3 {
 		a.pollCap = 3*req.Nodes + 1000 // a deliberately long search: its own budget bounds it
+	}
+	if req.PollCap > 0 {
+		a.pollCap = req.PollCap
+	}
+	if 12*req.SoftNodes > a.pollCap {
+		a.pollCap = 12 * req.SoftNodes // the iteration that crosses a soft limit is still finished
 	}
 	if co != nil {
 		a.board = b
